@@ -564,6 +564,7 @@ type lineageCase struct {
 	Lineage *Lineage `json:"lineage"`
 	Lib     []string `json:"library,omitempty"`
 	Maven   []string `json:"maven,omitempty"`
+	API     []string `json:"api_client,omitempty"` // API pass only: APIClient.Requirements' rows
 	LibErr  string   `json:"library_error,omitempty"`
 	Note    string   `json:"note,omitempty"`
 }
@@ -749,6 +750,8 @@ func (m *monitor) process(ls []*Lineage, generated bool) error {
 			if generated {
 				r.Count("lineages:agree", 1)
 			}
+			// Clean main verdict: the same POMs through resolve.APIClient (api.go).
+			m.apiPass(l, c.out, generated)
 			continue
 		}
 		if len(c.known) == 0 {
@@ -776,13 +779,14 @@ type witness struct {
 }
 
 func Run(r *ev.Run, replay string) {
-	r.Rule = "seeded lineage generator writes real pom.xml files (project, 0-4 ancestors, 0-3 imported BOMs with 0-2 ancestors each, nested imports; properties chained/overridden in child, ancestor or profile, and properties named like built-in expressions (project.version, pom.groupId, project.parent.version, version, parent.version ...) at every level; project.*/pom.*/bare built-ins; profiles by default/JDK/OS; dependencyManagement with import scope; duplicates; exclusions, scope, optional, type, classifier). Library: the pipeline of examples/go/maven_parse_resolve (root profiles first as in mavenRequirements) on those files; reference: Maven 3.8.7 DefaultModelBuilder on the same files, java.version=11.0.8, os linux/amd64/5.10.0-26-cloud-amd64. Ordered lists of (g,a,v,type,classifier,scope,optional,exclusions) of dependencies and managed dependencies are compared. Non-trivial = Maven's result holds a dependency whose version is a managed one or mentions a property defined more than once in the chain. Termination clause: random property tables (<=8 names, <=3 placeholders per value, cycles, self references, unknown keys) through Project.Interpolate under a watchdog."
+	r.Rule = "seeded lineage generator writes real pom.xml files (project, 0-4 ancestors, 0-3 imported BOMs with 0-2 ancestors each, nested imports; properties chained/overridden in child, ancestor or profile, and properties named like built-in expressions (project.version, pom.groupId, project.parent.version, version, parent.version ...) at every level; project.*/pom.*/bare built-ins; profiles by default/JDK/OS; dependencyManagement with import scope; duplicates; exclusions, scope, optional, type, classifier). Library: the pipeline of examples/go/maven_parse_resolve (root profiles first as in mavenRequirements) on those files; reference: Maven 3.8.7 DefaultModelBuilder on the same files, java.version=11.0.8, os linux/amd64/5.10.0-26-cloud-amd64. Ordered lists of (g,a,v,type,classifier,scope,optional,exclusions) of dependencies and managed dependencies are compared. API pass: every lineage that Maven accepts, on which the files pipeline agrees with Maven in both lists, and none of whose profiles has a JDK or OS activation (the entry point activates default profiles only; an extra stratum of lineages with activeByDefault profiles only is generated for it, total/2 lineages on top of the main ones) is also served, POM by POM, as GetRequirements responses by an in-process pb.InsightsClient, and resolve.APIClient.Requirements for the project, turned back into rows through MavenDepTypeToDependency, is compared with Maven's dependency list in the same normal form (all eight fields; managed dependencies are not returned by that entry point). Non-trivial = Maven's result holds a dependency whose version is a managed one or mentions a property defined more than once in the chain. Termination clause: random property tables (<=8 names, <=3 placeholders per value, cycles, self references, unknown keys) through Project.Interpolate under a watchdog."
 	r.Assumptions = []string{
 		"Maven 3.8.7 is the reference (the only Maven available); lineages it rejects at VALIDATION_LEVEL_MINIMAL are discarded and counted",
 		"equality clause generates only placeholders that resolve in the chain that uses them (the library drops a dependency with an unresolved placeholder, Maven keeps it verbatim: outside the statement's supported subset)",
 		"project.artifactId, system properties, env.* and settings are not generated (not in the statement's list of built-ins)",
 		"profile activation by property and by file is not generated (statement: default, JDK, OS)",
 		"JDK ranges are single intervals; OS activation values are those of maven.OSProfileActivation, given to the JVM as -Dos.name/-Dos.arch/-Dos.version",
+		"API pass: a GetRequirements response is taken to carry the POM's values verbatim (names as group:artifact, exclusions as group:artifact, optional and activeByDefault as written, an activation message for every profile); lineages with a JDK or OS activation anywhere, or a boolean not spelled true/false, are outside the pass (counted api_pass:out_of_domain); only lineages with a clean main verdict are compared",
 		"interpolation clause: how much of a string with an unresolvable placeholder is substituted is not stated and not checked; only that unresolvable placeholders stay",
 	}
 	m := &monitor{r: r, scratch: filepath.Join(ev.Root, "build", "c15", fmt.Sprintf("%d-%d", os.Getpid(), r.Seed))}
@@ -856,6 +860,15 @@ func Run(r *ev.Run, replay string) {
 				ls = append(ls, Generate(rng, Opts{}))
 			}
 			r.Count("lineages:generated", int64(len(ls)))
+			// The API pass's stratum: half as many lineages again, from a
+			// stream of its own (the main lineages are the same with and
+			// without it), profiles activated by default only.
+			arng := r.Rand(fmt.Sprintf("lineages-api/%d", b))
+			na := len(ls) / 2
+			for i := 0; i < na; i++ {
+				ls = append(ls, Generate(arng, Opts{DefaultProfilesOnly: true}))
+			}
+			r.Count("lineages:generated:api-stratum", int64(na))
 			if err := m.process(ls, true); err != nil {
 				errMu.Lock()
 				if firstErr == nil {
@@ -893,6 +906,13 @@ func Run(r *ev.Run, replay string) {
 	r.Gate("feature:prop:named-like-builtin:bare-used", int64(total)/40)
 	r.Gate("nontrivial:managed-version", 50)
 	r.Gate("nontrivial:overridden-property", 20)
+	// The API pass: enough lineages went through resolve.APIClient, with the
+	// features that its own code handles (parents, imports, default profiles).
+	r.Gate("api_pass:compared", int64(r.N(100, 3000)))
+	r.Gate("api_pass:requirements_calls", int64(r.N(300, 9000)))
+	for _, f := range []string{"root_has_parent", "imports_bom", "default_profile"} {
+		r.Gate("api_pass:"+f, int64(r.N(30, 900)))
+	}
 	r.Gate("interpolate:tables-with-cycle", 1000)
 	r.Gate("interpolate:tables-fully-resolvable", 500)
 }
